@@ -395,6 +395,9 @@ def check_meta(ctx, ms):
             in_project = False
         else:
             container = Project()
+            ver = [None, (1, 9, 4, 2), None, (1, 7, 0, 0), None, (2, 0, 0, 0)][len(repr(ms)) % 6]
+            if ver:
+                container.sunvox_version = ver  # the project is written as a file of an older SunVox version
             container.attach_module(mod)
             in_project = True
         s0 = snapshot.snap_module(mod, in_project=in_project)
